@@ -1,0 +1,10 @@
+//go:build verif
+
+// Contracts for govc (contract-based deductive verification, see /verif/DESIGN.md).
+// Comment-only file: it contains no code and is compiled only under the verif tag.
+
+package raftpb
+
+//@ func GetEntrySliceInMemSize [C19]
+
+//@ func GetEntrySliceSize [C19]
